@@ -459,12 +459,14 @@ class HarnessA:
             self.probe("get_request_waits")
         return "granted" if t.state == "granted" else "pending"
 
-    def x_put(self, c, tokname, iname, d, tag):
+    def x_put(self, c, tokname, iname, d, tag, ikind=None):
         ev, t = self._ev_of(tokname)
         if ev == "skip" or iname in self.items:
             return "skip"
         L = self.cfg.get("item_length", 1)
-        obj = adapters.new_item(iname, L, tag)
+        obj = adapters.new_item(iname, L, tag, ikind)
+        if ikind is not None:
+            self.probe("unusual_item_" + (ikind if isinstance(ikind, str) else "dup_id"))
         rec = ItemRec(iname, obj, tag)
         wf = self.wellformed(t, "p", c)
         d = self.ad.eff_delay(d)
@@ -803,7 +805,7 @@ class HarnessA:
                 self.call(c, lambda: out.append(self._x(self.x_rg, c, op[2] if self.ad.prio_get else 0, op[3], op[4])))
             elif k == "put":
                 c = op[1] % self.K
-                self.call(c, lambda: out.append(self._x(self.x_put, c, op[2], op[3], op[4], op[5])))
+                self.call(c, lambda: out.append(self._x(self.x_put, c, op[2], op[3], op[4], op[5], op[6] if len(op) > 6 else None)))
             elif k == "get":
                 c = op[1] % self.K
                 self.call(c, lambda: out.append(self._x(self.x_get, c, op[2])))
